@@ -48,6 +48,16 @@ def mk_engine(repo):
             return outs
         return None
     eng.py_calls["builtins.float"] = b_float
+    def m_isfinite(e, st, args, kw, ctx, node):
+        if len(args) == 1 and isinstance(args[0], SFloat): return [(st, SBool(z3.And(F_FINITE(args[0].e), z3.Not(F_NAN(args[0].e)))))]
+        return None
+    def m_isnan(e, st, args, kw, ctx, node):
+        if len(args) == 1 and isinstance(args[0], SFloat): return [(st, SBool(F_NAN(args[0].e)))]
+        return None
+    def m_isinf(e, st, args, kw, ctx, node):
+        if len(args) == 1 and isinstance(args[0], SFloat): return [(st, SBool(z3.And(z3.Not(F_FINITE(args[0].e)), z3.Not(F_NAN(args[0].e)))))]
+        return None
+    eng.py_calls["math.isfinite"] = m_isfinite; eng.py_calls["math.isnan"] = m_isnan; eng.py_calls["math.isinf"] = m_isinf
     prev_int = eng.py_calls.get("builtins.int")
     def b_int(e, st, args, kw, ctx, node):
         if len(args) == 1 and isinstance(args[0], SFloat) and not kw:
@@ -107,23 +117,40 @@ def p1text_obligations(eng):
     obls += o
     # ---- DataSet.parse_data_block: terminates for every text, only ValueError escapes
     q = D + "DataSet.parse_data_block"
+    # loop variables by role (not by name): the inner `while True` of the nested helper carries one cursor over the helper's text parameter;
+    # the outer `while` carries the position that its test reads; the line is the target of the enclosing `for`
+    fn_pdb = eng.funcs[q][0]
+    helpers = [n for n in ast.walk(fn_pdb) if isinstance(n, ast.FunctionDef) and n is not fn_pdb]
+    whiles = sorted((n for n in ast.walk(fn_pdb) if isinstance(n, ast.While)), key=lambda n: n.lineno)
+    inner = [w for w in whiles if any(w in list(ast.walk(h)) for h in helpers)]
+    outer = [w for w in whiles if w not in inner]
+    fors = [n for n in ast.walk(fn_pdb) if isinstance(n, ast.For) and any(w in list(ast.walk(n)) for w in outer)]
+    if len(inner) != 1 or len(outer) != 1 or len(helpers) != 1 or not fors or not isinstance(fors[-1].target, ast.Name): raise Unsupported("parse_data_block: loop structure not recognised")
+    helper = helpers[0]; LINE = helper.args.args[0].arg
+    r_in = loop_roles(helper, inner[0]); cur = [c for c in r_in["carried"]]
+    if len(cur) != 1: raise Unsupported(f"parse_data_block: inner loop carries {cur}, expected one cursor")
+    CUR = cur[0]
+    r_out = loop_roles(fn_pdb, outer[0]); test_names = {x.id for x in ast.walk(outer[0].test) if isinstance(x, ast.Name)}
+    pos_names = [c for c in r_out["carried"] if c in test_names]
+    if len(pos_names) != 1: raise Unsupported(f"parse_data_block: outer loop position not recognised ({r_out}, {test_names})")
+    POS = pos_names[0]; DLINE = fors[-1].target.id
     def inv_inner(st, e):
-        line = st.locals["line"]; fp = to_int(st.locals["from_pos"]); ae = to_int(st.locals["address_end"])
-        return [("from_pos stays inside the line, at or after the '(' that ended the address", z3.And(ae >= 0, fp >= ae, fp < z3.Length(line.e)))]
-    def dec_inner(st, e): return z3.Length(st.locals["line"].e) - to_int(st.locals["from_pos"])
+        line = st.locals[LINE]; fp = to_int(st.locals[CUR])
+        start = to_int(st.locals["$entry"][1])           # old(second parameter): where this data set was looked for
+        return [("the cursor stays inside the line, at or after the position the helper was called with", z3.And(start >= 0, fp >= start, fp < z3.Length(line.e)))]
+    def dec_inner(st, e): return z3.Length(st.locals[LINE].e) - to_int(st.locals[CUR])
     def inv_outer(st, e):
-        v = st.locals["position"]
+        v = st.locals[POS]
         if v is None: return []          # a 'no more data sets' marker other than -1
-        pos = to_int(v); return [("position is -1 or inside the line", z3.And(pos >= -1, pos <= z3.Length(st.locals["data_line"].e)))]
+        pos = to_int(v); return [("position is -1 or inside the line", z3.And(pos >= -1, pos <= z3.Length(st.locals[DLINE].e)))]
     def dec_outer(st, e):
-        v = st.locals["position"]
+        v = st.locals[POS]
         if v is None: return z3.IntVal(0)
-        pos = to_int(v); return z3.If(pos >= 0, z3.Length(st.locals["data_line"].e) - pos + 1, 0)
+        pos = to_int(v); return z3.If(pos >= 0, z3.Length(st.locals[DLINE].e) - pos + 1, 0)
     def selector(qual, stmt, no):
         if qual != q: return None
-        src = ast.unparse(stmt)
-        if isinstance(stmt, ast.While) and "position" in ast.unparse(stmt.test): return (inv_outer, dec_outer, {})
-        if isinstance(stmt, ast.While): return (inv_inner, dec_inner, {})
+        if stmt is outer[0]: return (inv_outer, dec_outer, {})
+        if stmt is inner[0]: return (inv_inner, dec_inner, {})
         if isinstance(stmt, ast.For): return ((lambda st, e: []), None, {})
         return None
     eng.loop_spec_selector = selector
